@@ -461,6 +461,23 @@ def c_toks(q, ids):
     return clist(out)
 
 
+def c_pylex(q):
+    ls = lex(q)
+    if ls is None:
+        return "None"
+    out = []
+    for t in ls:
+        if t[0] == "L":
+            out.append("XL")
+        elif t[0] == "R":
+            out.append("XR")
+        elif t[0] == "op":
+            out.append("(XOp %s)" % {"and": "OAnd", "or": "OOr", "not": "ONot"}[t[1]])
+        else:
+            out.append("(XAtom %s)" % cstr(t[1]))
+    return "(Some %s)" % clist(out)
+
+
 def expand_cases(case, r):
     """one judged case per rule condition"""
     if "exc" in r:
@@ -513,12 +530,12 @@ def struct_to_coq(case, r):
         return None
     k = case["k"]
     return ("{| sc_K := %s; sc_S := %s; sc_tree := %s; sc_atexts := %s; sc_ftexts := %s; sc_vtexts := %s; sc_query := %s; "
-            "sc_toks := %s; sc_ref := %s; sc_natoms := %d%%nat |}" % (
+            "sc_toks := %s; sc_ref := %s; sc_natoms := %d%%nat; sc_pylex := %s |}" % (
                 c_cfg(k), c_syntax(k), c_tree(cnd["tree"]),
                 clist("(%d%%nat, (%s, %s))" % (i, cstr(a), cstr(b)) for i, a, b in cnd["atexts"]),
                 clist("(%d%%nat, %s)" % (i, cstr(a)) for i, a in cnd["ftexts"]),
                 clist("(%d%%nat, %s)" % (i, cstr(a)) for i, a in cnd["vtexts"]),
-                cstr(cnd["query"]), copt(toks), cref, len(ids)))
+                cstr(cnd["query"]), copt(toks), cref, len(ids), c_pylex(cnd["query"])))
 
 
 def tree_unsafe_noteq(t, under_not=False):
@@ -681,7 +698,7 @@ def strop_to_coq(c, r):
                 dec = f"({op}, {items})"
     return f"({K}, {cstr(c['s'])}, {copt(dec)})"
 
-REQ = ["Base.Chars", "Model.Backend", "Spec.Target", "Run.C01run"]
+REQ = ["Base.Chars", "Model.Backend", "Spec.Target", "Spec.Lex", "Run.C01run"]
 from props.c01_leaf import gen_leaf, leaf_to_coq, stratum_leaf, mutate_leaf, known_leaf
 REQ_LEAF = ["Base.Chars", "Base.Outcome", "Model.SString", "Model.StrOp", "Model.FieldName", "Model.Leaf", "Spec.Atom", "Run.C01leaf"]
 PROPERTY = Property(
